@@ -16,4 +16,66 @@ PROPERTIES = {
              "bounds": "discriminant: all values < variant_count"},
         ],
     },
+    "C16": {
+        "bounds": "one tag per query; pid/u32, exit codes i64/i32, custom signal i32 over their full ranges; paths: two fixed short PathBufs; wire totality: every kind x every present/absent combination of the 10 optional fields; unwind 8/24 (memcmp of <= 23-byte names)",
+        "outside": "serde_json text layer (escaping, number printing, field spelling in the text), metadata maps, non-UTF-8 paths, events with > 1 tag",
+        "trusted": ["Kani 0.68 / CBMC 6.11 / CaDiCaL", "hook watchexec_events::verif (cfg(kani)) exposing SerdeTag fields"],
+        "assumptions": ["serde derive maps struct fields 1:1 to JSON object members (not encoded)"],
+        "harnesses": [
+            {"group": "events", "name": "c16_tag_roundtrip", "covers": ["path tag", "completion tag", "exit error tag", "custom signal tag"],
+             "bounds": "all non-fs tag kinds, full integer ranges"},
+            {"group": "events", "name": "c16_wire_fields", "covers": ["completion with end"], "bounds": "as c16_tag_roundtrip"},
+            {"group": "events", "name": "c16_wire_totality", "covers": ["known kind degraded to Unknown", "completion parsed"],
+             "bounds": "8 kinds x 2^9 field-presence masks x full integer payloads x 4 `full` strings"},
+        ],
+    },
+    "C19": {
+        "bounds": "all i32 signal numbers; all 2^32 raw wait statuses; exit codes 1..=255; every first-class signal and Custom(n) for all n",
+        "outside": "name parsing/Display (from_str, from_unix_str, from_windows_str), --map-signal parser, Windows branches",
+        "trusted": ["Kani 0.68 / CBMC 6.11 / CaDiCaL", "std::process::ExitStatus unix wait-status decoding as compiled"],
+        "assumptions": ["Linux signal numbering (target x86_64-unknown-linux-gnu)"],
+        "harnesses": [
+            {"group": "events", "name": "c19_from_i32_vs_to_nix", "covers": ["custom", "first-class"], "bounds": "all i32"},
+            {"group": "events", "name": "c19_nix_roundtrip", "covers": ["custom roundtrip"], "bounds": "all Signal values"},
+            {"group": "events", "name": "c19_every_os_signal", "bounds": "n in 1..=31"},
+            {"group": "events", "name": "c19_exitstatus_to_processend", "covers": ["exit error", "signalled with core bit", "stopped"], "bounds": "all 2^32 raw statuses"},
+            {"group": "events", "name": "c19_processend_roundtrip", "covers": ["custom terminating signal"], "bounds": "Success, ExitError(1..=255), ExitSignal(any valid)"},
+        ],
+    },
+    "C07": {
+        "bounds": "flag/ticket level: 3 waiters, 3 pre-raise poll slots in any interleaving (a waiter may poll repeatedly), raise of either the control flag or the job-gone flag",
+        "outside": "wake-ups racing on real threads (AtomicWaker/atomics are executed sequentially); panicking job tasks",
+        "trusted": ["Kani 0.68 / CBMC 6.11 / CaDiCaL", "models/tokio (wakers, executor, virtual time)", "hook watchexec_supervisor::verif (cfg(kani))"],
+        "assumptions": ["a waiter is a task that polled with its own waker and returned Pending; it makes progress only if that waker is woken"],
+        "harnesses": [
+            {"group": "supervisor", "name": "c07_flag_all_waiters_woken", "covers": ["three waiters pending", "re-poll after another waiter registered"],
+             "bounds": "3 waiters, 3 poll slots each taken by any waiter or skipped; first slot = waiter 0 by symmetry (16 schedules, path-split)"},
+            {"group": "supervisor", "name": "c07_flag_all_waiters_woken_full", "tiers": ("thorough",), "covers": ["three waiters pending"],
+             "bounds": "as above without the symmetry argument (64 schedules)", "timeout": {"thorough": 3000}},
+            {"group": "supervisor", "name": "c07_ticket_clone_first_control_done", "covers": ["two clones pending", "two different tickets pending"], "bounds": "3 waiters (2 clones + 1 other ticket of the job), 3 poll slots, first = a clone; the control's own flag is raised"},
+            {"group": "supervisor", "name": "c07_ticket_clone_first_job_gone", "covers": ["two clones pending", "two different tickets pending"], "bounds": "same; the job-gone flag is raised"},
+            {"group": "supervisor", "name": "c07_ticket_other_first_control_done", "covers": ["two clones pending", "two different tickets pending"], "bounds": "same, first = the other ticket; control flag raised"},
+            {"group": "supervisor", "name": "c07_ticket_other_first_job_gone", "covers": ["two clones pending", "two different tickets pending"], "bounds": "same, first = the other ticket; job-gone flag raised"},
+        ],
+    },
+    "C10": {
+        "bounds": "queue contents (n_normal, n_high, n_urgent) in [0,2]^3, timer in {none, armed-future, armed-past} x {stop, restart}, every select! start index",
+        "outside": "several sender threads; queues longer than 2 per priority",
+        "trusted": ["Kani 0.68 / CBMC 6.11 / CaDiCaL", "models/tokio (mpsc ring, select! = tokio's macro text with symbolic start index, virtual time)"],
+        "assumptions": [],
+        "harnesses": [
+            {"group": "supervisor", "name": "c10_recv_priority_order", "covers": ["timer already past", "armed timer holds back normal", "normal fifo"], "bounds": "one recv from arbitrary queues/timer"},
+            {"group": "supervisor", "name": "c10_recv_drain_order", "covers": ["all queues full"], "bounds": "<= 6 messages sent in any interleaving, drained by <= 7 recv"},
+        ],
+    },
+    "C18": {
+        "bounds": "Exec: program + <= 3 args; Shell: <= 2 options, optional program option, command, <= 2 args; every string 0..=2 characters from {a, space, double quote, quote, $, *, newline, backslash, e-acute (2 bytes), -}; all 8 spawn-option combinations",
+        "outside": "what tokio/std/the kernel do with the argv (exec fidelity, pgid/sid), strings longer than 2 characters, spawn-hook env/cwd visibility in a real child, CLI argument interpretation",
+        "trusted": ["Kani 0.68 / CBMC 6.11 / CaDiCaL", "models/tokio process::Command (records program/args verbatim)", "models/process-wrap (records wrapper kinds)"],
+        "assumptions": ["tokio::process::Command::arg/args append one argv element per call/item (documented std behaviour)"],
+        "harnesses": [
+            {"group": "supervisor", "name": "c18_exec_argv_exact", "covers": ["three args", "empty-string argument"], "bounds": "<= 3 args x <= 2 chars"},
+            {"group": "supervisor", "name": "c18_shell_argv_order", "covers": ["full shell form", "no program option"], "bounds": "<= 2 options, <= 2 args, <= 2 chars each"},
+        ],
+    },
 }
